@@ -8,8 +8,8 @@ package main
 
 import (
 	"fmt"
-	"os"
 	"go/token"
+	"os"
 	"sort"
 	"strings"
 
